@@ -11,6 +11,7 @@ EXPLANATION = (
     "written, per sign branch, equals fm ± |max(fm>>7, 2 if TIP-901)·delta/128|, with the TIP-901 flag's provenance tip_901(self). "
     "R3 no wrap-around: no lossy narrowing cast and no undischarged overflow assertion on the path from reading to writing the multiplier."
     " R3 also reports wrapping_* / overflowing_* arithmetic on a multiplier-derived value. Imports the activation table C06.R5 (the floor of 2 applies from TIP-901)."
+    " R3 `abort/<fn>`: no panic condition over the multiplier in seal / apply_proposer_action / move_action_fee_multiplier."
 )
 NOT_DECIDED = ["numeric range claims beyond the absence of wrapping operations (saturation points are read, not proved optimal)"]
 ASSUMPTIONS = ["ProposerAction.fee_multiplier_delta is an i8 (melstructs 0.3.3), hence |delta| ≤ 128"]
